@@ -11,9 +11,13 @@ pub struct C14;
 pub const ALPHA_A: &[char] = &['0', '1', 'b', 'e', '.', '_', '"', '/', '*', '\n', '#', '$', 'µ', '\0'];
 pub const ALPHA_B: &[char] = &['x', 'O', 'p', '\'', '-', '+', 'é', '😀', '\r', '@', ' '];
 
+/// byte order mark, the rarer members of the lexer's whitespace set, a unit, a statement
+pub const ALPHA_C: &[char] = &['\u{feff}', '\u{000B}', '\u{0085}', '\u{2028}', 'x', '2', 's', ';', '\t'];
+
 fn alpha(id: &str) -> &'static [char] {
     match id {
         "A" => ALPHA_A,
+        "C" => ALPHA_C,
         _ => ALPHA_B,
     }
 }
@@ -211,7 +215,7 @@ impl Property for C14 {
         let mut v = Vec::new();
         let la = tier.pick(5, 6);
         let lb = tier.pick(4, 5);
-        for (id, maxlen) in [("A", la), ("B", lb)] {
+        for (id, maxlen) in [("A", la), ("B", lb), ("C", lb)] {
             let n = alpha(id).len() as u64;
             for len in 0..=maxlen {
                 let id2 = id.to_string();
@@ -227,6 +231,9 @@ impl Property for C14 {
         v.push(Stream::new("random-hostile", nrand, false, move |i| {
             let mut r = Rng::new(mix(&[seed, 0x14, i]));
             format!("s:{}", strings::hostile_string(&mut r, 64))
+        }));
+        v.push(Stream::new("seed-programs-bom-line-ending-whitespace-variants", strings::file_variant_count(), true, |i| {
+            format!("s:{}", strings::file_variant_case(i))
         }));
         let nmut = tier.pick(20_000, 1_000_000);
         v.push(Stream::new("mutated-programs", nmut, false, move |i| {
